@@ -152,10 +152,12 @@ def parseNumValue (s : Str) : LitRes :=
   | some k =>
     match s with
     | 45 :: t =>
-      -- "-0K": the buffer holds only "-" when `decimal` runs (the "0" is appended by `ParseNum`
-      -- only to an EMPTY buffer), `UnmarshalText("-")` fails and the decimal stays NaN
+      -- "-0", "-0K", "-0e5": the literal's "0" is never copied into the buffer (it is supplied
+      -- afterwards, and only to an EMPTY buffer), so `decimal` sees "-", "-" or "-e5";
+      -- `UnmarshalText` fails on these, the error is ignored and the decimal stays NaN
       let bareZeroMul := match t with
-        | 48 :: c :: _ => NumLit.isMul c
+        | [48] => true
+        | 48 :: c :: _ => NumLit.isMul c || c == 101 || c == 69
         | _ => false
       if bareZeroMul then .nan else
       match readValue k t with
